@@ -67,7 +67,8 @@ def requirements(tier):
             'savorize_events': 60000 if q else 600000,
             'sweeten_events': 80000 if q else 800000,
             'recognize_events': 200000 if q else 2000000,
-            'seasoning_error_loads': 1500 if q else 15000}
+            'seasoning_error_loads': 1500 if q else 15000,
+            'partial_registration_loads': 3000 if q else 30000}
 
 
 # ---------------------------------------------------------------------------
@@ -123,6 +124,10 @@ def chain_spec(n, sav, swe, rec, mix, root_mode, raiser, other_hooks=True,
         other['savorize'] = [['record']]
         other['sweeten'] = [['record']]
     classes.append(other)
+    # a string-like class with seasoning: also reached as a dict key
+    classes.append({'name': 'SK', 'kind': 'userstring',
+                    'savorize': [['enum_upper']],
+                    'sweeten': [['enum_lower']]})
     root = 'K1' if root_mode != 'unreg' else 'K2'
     rt = ['cls', root]
     classes.append({'name': 'Top', 'kind': 'plain', 'params': [
@@ -133,7 +138,10 @@ def chain_spec(n, sav, swe, rec, mix, root_mode, raiser, other_hooks=True,
         {'name': 'alt', 'type': ['union', rt, 'int']},
         {'name': 'opt', 'type': ['opt', rt]},
         {'name': 'other', 'type': ['cls', 'Other']},
-        {'name': 'alt2', 'type': ['union', 'str', rt, ['cls', 'Other']]},
+        {'name': 'alt2', 'type': ['union', 'int', rt, ['cls', 'Other']]},
+        {'name': 'names', 'type': ['dict', ['cls', 'SK'], 'int']},
+        {'name': 'tagline', 'type': ['cls', 'SK']},
+        {'name': 'words', 'type': ['list', ['cls', 'SK']]},
     ]})
     return {'classes': classes, 'doc_type': ['cls', 'Top'], 'root': root,
             'n': n}
@@ -149,14 +157,15 @@ def levels(spec):
     return out
 
 
-def expected_hooks(spec, level, kind):
+def expected_hooks(spec, level, kind, unreg=()):
     """Classes whose hook of this kind must run for an object of K<level>."""
     out = []
     for c in spec['classes']:
         if not c['name'].startswith('K'):
             continue
         i = int(c['name'][1:])
-        if i <= level and c.get('registered', True) and c.get(kind):
+        if i <= level and c.get('registered', True) and c.get(kind) \
+                and c['name'] not in unreg:
             out.append(c['name'])
     return out
 
@@ -164,7 +173,8 @@ def expected_hooks(spec, level, kind):
 class Builder:
     """Makes documents/values with unique uids."""
 
-    def __init__(self, spec):
+    def __init__(self, spec, unreg=()):
+        self.unreg = set(unreg)     # not registered with this function
         self.spec = spec
         self.uid = 100
         self.cs = {c['name']: c for c in spec['classes']}
@@ -195,7 +205,8 @@ class Builder:
                 ki = self.cs['K%d' % i]
                 # written in sugared form iff the class that owns it has a
                 # savorizer that will run (registered)
-                if ki.get('savorize') and ki.get('registered', True):
+                if ki.get('savorize') and ki.get('registered', True) \
+                        and ki['name'] not in self.unreg:
                     doc['s%d' % i] = val
                 else:
                     doc[nm] = val
@@ -222,11 +233,30 @@ class Builder:
         doc['opt'] = self.k_plain(next(pick))
         doc['other'] = self.other_plain()
         doc['alt2'] = self.k_plain(next(pick))
+        doc['names'] = collections.OrderedDict(
+            (self.sk(), i) for i in range(2))
+        doc['tagline'] = self.sk()
+        doc['words'] = [self.sk(), self.sk()]
         return doc, u
+
+    def sk(self):
+        u = self.next_uid()
+        self.want[u] = ('SK', None)
+        return 'sk%d' % u
+
+
+def sk_uid(text):
+    t = str(text).lower()
+    if t.startswith('sk') and t[2:].isdigit():
+        return int(t[2:])
+    return None
 
 
 def uid_of(view):
-    """uid of the mapping a hook was handed (top-level keys only)."""
+    """uid of the mapping a hook was handed (top-level keys only); for the
+    string-like class the uid is part of the text."""
+    if isinstance(view, list) and view[0] == 's':
+        return sk_uid(view[2])
     if not isinstance(view, list) or view[0] != 'map':
         return None
     for k, v in view[1]:
@@ -246,7 +276,7 @@ def render_plain(data, style):
 # ---------------------------------------------------------------------------
 # the trace checker
 
-def check_trace(ctx, m, spec, case, phase, constructed, tag):
+def check_trace(ctx, m, spec, case, phase, constructed, tag, unreg=()):
     """constructed: uid -> class name of the object built (load) or dumped.
     phase: 'load' | 'dump'."""
     kind_of = {'load': 'savorize', 'dump': 'sweeten'}[phase]
@@ -254,7 +284,7 @@ def check_trace(ctx, m, spec, case, phase, constructed, tag):
     first_sav = {}
     init_seq = {}
     regchain = {c['name'] for c in spec['classes']
-                if c.get('registered', True)}
+                if c.get('registered', True) and c['name'] not in unreg}
     for ev in m.events:
         seq, _thr, kind, defining, cls_arg, payload = ev
         if kind == 'init':
@@ -309,7 +339,9 @@ def check_trace(ctx, m, spec, case, phase, constructed, tag):
     nontrivial = False
     for u, cname in constructed.items():
         if cname.startswith('K'):
-            exp = expected_hooks(spec, int(cname[1:]), kind_of)
+            exp = expected_hooks(spec, int(cname[1:]), kind_of, unreg)
+        elif cname == 'SK':
+            exp = ['SK']
         elif cname == 'Other':
             exp = ['Other'] if m.cspecs['Other'].get(kind_of) else []
         else:
@@ -354,11 +386,16 @@ def constructed_from_value(v, out):
         for x in args.values():
             constructed_from_value(x, out)
     elif isinstance(v, dict):
-        for x in v.values():
+        for k, x in v.items():
+            constructed_from_value(k, out)
             constructed_from_value(x, out)
     elif isinstance(v, list):
         for x in v:
             constructed_from_value(x, out)
+    elif isinstance(v, collections.UserString):
+        u = sk_uid(v)
+        if u is not None:
+            out[u] = type(v).__name__
 
 
 def build_value(m, plain, want):
@@ -373,9 +410,12 @@ def build_value(m, plain, want):
         return m.classes[cname](**args)
     if isinstance(plain, dict):
         return collections.OrderedDict(
-            (k, build_value(m, x, want)) for k, x in plain.items())
+            (build_value(m, k, want), build_value(m, x, want))
+            for k, x in plain.items())
     if isinstance(plain, list):
         return [build_value(m, x, want) for x in plain]
+    if isinstance(plain, str) and sk_uid(plain) in want:
+        return m.classes['SK'](plain.upper())      # the savorized form
     return plain
 
 
@@ -507,6 +547,11 @@ def run_case(ctx, params):
                          tag + ' ' + pos)
         ctx.case([tag, pos, 'load'], nt)
 
+    # ---- the same classes through a function that registers fewer of them ----
+    # (a class-level memo of "registered bases" would leak between functions)
+    if n >= 2 and params['root_mode'] == 'reg' and raiser is None:
+        partial_registration(ctx, m, spec, case, tag, lv, style)
+
     # ---- dump ----------------------------------------------------------------
     for doc_type, plain, pos in docs:
         uids_in_doc = {}
@@ -541,7 +586,8 @@ def run_case(ctx, params):
             if ev[2] != 'sweeten':
                 continue
             u = uid_of(ev[5])
-            if u is None or u in seen_first or u not in b.want:
+            if u is None or u in seen_first or u not in b.want \
+                    or ev[5][0] != 'map':
                 continue
             seen_first.add(u)
             wcls, wargs = b.want[u]
@@ -574,6 +620,74 @@ def run_case(ctx, params):
                                    'savorize')}, 'case')
 
 
+def partial_registration(ctx, m, spec, case, tag, lv, style):
+    unreg = {'K1'}
+    names = [c['name'] for c in spec['classes']
+             if c.get('registered', True) and c['name'] not in unreg
+             and c['name'] != 'Top']
+    lv2 = [l for l in lv if l >= 2]
+    if not lv2:
+        return
+    b = Builder(spec, unreg=unreg)
+    plain = [b.k_plain(l) for l in lv2]
+    text = render_plain(plain, style)
+    for round_ in ('partial', 'full-again'):
+        try:
+            if round_ == 'partial':
+                load = m.load_fn(['list', ['cls', 'K2']], order=names)
+                un = unreg
+                doc = text
+            else:
+                load = m.load_fn(['list', ['cls', 'K2']])
+                un = ()
+                b2 = Builder(spec)
+                b2.uid = 5000
+                plain2 = [b2.k_plain(l) for l in lv2]
+                doc = render_plain(plain2, style)
+        except Exception as e:
+            ctx.note('partial registration: %r' % (e,))
+            return
+        bb = b if round_ == 'partial' else b2
+        pp = plain if round_ == 'partial' else plain2
+        m.reset()
+        kind, x = H.run_load(load, doc)
+        ctx.count('loads')
+        ctx.count('partial_registration_loads')
+        t2 = '%s %s-registration' % (tag, round_)
+        if kind != 'ok':
+            ctx.violation(
+                'C10 load-failed %s %s-registration' % (
+                    type(x).__name__, round_),
+                'document failed to load through a function that registers '
+                '%s: %s (%s); text %r' % (
+                    'all classes but K1' if round_ == 'partial' else
+                    'all classes again', str(x)[-300:], t2, doc[:300]), case)
+            check_trace(ctx, m, spec, case, 'load', {}, t2, un)
+            continue
+        constructed = {}
+        constructed_from_value(x, constructed)
+        uids = {}
+        collect_uids(pp, bb.want, uids)
+        for u, cname in uids.items():
+            if constructed.get(u) != cname:
+                ctx.violation(
+                    'C10 load wrong-class-constructed',
+                    'uid=%s: expected %s, got %s (%s)' % (
+                        u, cname, constructed.get(u), t2), case)
+        for ev in m.events:
+            if ev[2] == 'init' and isinstance(ev[5], dict) and \
+                    ev[5].get('uid') in bb.want:
+                wcls, wargs = bb.want[ev[5]['uid']]
+                if wargs is not None and dict(ev[5]) != dict(wargs):
+                    ctx.violation(
+                        'C10 load wrong-constructor-arguments',
+                        'uid=%s: %s.__init__ got %r, expected %r (%s)' % (
+                            ev[5]['uid'], ev[4], dict(ev[5]), dict(wargs),
+                            t2), case)
+        check_trace(ctx, m, spec, case, 'load', constructed, t2, un)
+        ctx.case([tag, round_, 'load'], True)
+
+
 def same_plain(a, b):
     if isinstance(a, dict) and isinstance(b, dict):
         return list(a.keys()) == list(b.keys()) and all(
@@ -590,10 +704,16 @@ def short(x, n=300):
 
 
 def collect_uids(plain, want, out):
+    if isinstance(plain, str):
+        u = sk_uid(plain)
+        if u is not None and u in want:
+            out[u] = want[u][0]
+        return
     if isinstance(plain, dict):
         if 'uid' in plain and plain['uid'] in want:
             out[plain['uid']] = want[plain['uid']][0]
-        for x in plain.values():
+        for k, x in plain.items():
+            collect_uids(k, want, out)
             collect_uids(x, want, out)
     elif isinstance(plain, list):
         for x in plain:
